@@ -11,6 +11,7 @@ import (
 
 	"github.com/anthdm/hollywood/actor"
 	hcluster "github.com/anthdm/hollywood/cluster"
+	hremote "github.com/anthdm/hollywood/remote"
 
 	"verif/harness/core"
 	simnet "verif/sim/simnet"
@@ -47,6 +48,8 @@ type world struct {
 	rc    *core.RunCtx
 	seq   int
 	nodes []*node
+	// probability that a node with a remote is created WithEngine instead of WithListenAddr
+	ownEngineP float64
 }
 
 func (w *world) tick() int { w.seq++; return w.seq }
@@ -93,6 +96,18 @@ func (w *world) startNode(n int, id string, kinds []string, provider hcluster.Pr
 		}
 		cfg = cfg.WithEngine(e)
 		nd.addr = e.Address()
+	} else if w.ownEngineP > 0 && simrt.G().Bool(w.ownEngineP) {
+		// the application brings its own engine and remote (WithEngine); the
+		// config's listen address stays at its unused default
+		e, err := actor.NewEngine(actor.NewEngineConfig().WithRemote(hremote.New(nd.addr, hremote.NewConfig())))
+		if err != nil {
+			panic(err)
+		}
+		cfg = hcluster.NewConfig().WithID(id).WithRegion("default").WithEngine(e)
+		if provider != nil {
+			cfg = cfg.WithProvider(provider)
+		}
+		w.rc.Scen("node %s is created WithEngine (own engine and remote at %s)", id, nd.addr)
 	}
 	c, err := hcluster.New(cfg)
 	if err != nil {
@@ -208,7 +223,12 @@ func runMembership(rc *core.RunCtx) {
 	nuni := g.Range(1, 5)
 	uni := []uMember{{id: "A", host: self.addr, kinds: selfKinds}}
 	for i := 0; i < nuni; i++ {
-		uni = append(uni, uMember{id: fmt.Sprintf("m%d", i), host: fmt.Sprintf("10.9.0.%d:1", i+1), kinds: pickKinds()})
+		host := fmt.Sprintf("10.9.0.%d:1", i+1)
+		if i > 0 && g.Bool(0.3) {
+			// a node restarted under a new id on the same address: two members, one host
+			host = uni[len(uni)-1].host
+		}
+		uni = append(uni, uMember{id: fmt.Sprintf("m%d", i), host: host, kinds: pickKinds()})
 	}
 	for _, u := range uni {
 		rc.Scen("universe %s host=%s kinds=%v", u.id, u.host, u.kinds)
